@@ -1067,6 +1067,91 @@ func runC08(c *Ctx) {
 					}
 				}
 			}
+			// ... or Lock and Unlock share a tail that is told the new flag value, asks the underlying agent for the matching
+			// operation and stores the value on success: read per call site, with the constant this method passes deciding
+			// which of the two calls runs
+			var tailView *Facts
+			if agentCall == nil {
+				for _, call := range callsIn(fn) {
+					sc, ok := call.(*ssa.Call)
+					if !ok || !live(sc.Block()) {
+						continue
+					}
+					h := w.helperOf(sc)
+					if h == nil || !m.flagHelper(h, flagWriters) || len(sc.Call.Args) != len(h.Params) {
+						continue
+					}
+					w.Pin(fn, h, sc, func(hv *Facts) {
+						var mine *ssa.Call
+						other := false
+						for _, hcall := range callsIn(h) {
+							cc, isCall := hcall.(*ssa.Call)
+							if !isCall || !cc.Call.IsInvoke() || !m.isLoadOfField(cc.Call.Value, m.fAgent) || hv.At(cc.Block()) == nil {
+								continue
+							}
+							switch cc.Call.Method.Name() {
+							case spec.name:
+								mine = cc
+							case "Lock", "Unlock":
+								other = true
+							}
+						}
+						if mine == nil || other || len(mine.Call.Args) != 1 {
+							return
+						}
+						pp, isP := throughCell(strip(mine.Call.Args[0])).(*ssa.Parameter)
+						if !isP || pp.Parent() != h || paramIndex(pp) >= len(sc.Call.Args) || w.ExprIn(fr.entry, sc.Call.Args[paramIndex(pp)]) != "p1" {
+							return
+						}
+						// what the tail returns in this activation is that call's result (or nil where it is known nil)
+						okRet := errorResultIndex(h) == 0 && h.Signature.Results().Len() == 1
+						for _, r := range liveReturns(h) {
+							if hv.At(r.Block()) == nil {
+								continue
+							}
+							for _, lf := range w.LeavesErr(r.Results[0], r) {
+								if lf.Val == ssa.Value(mine) {
+									continue
+								}
+								if cv, isCall := lf.Val.(*ssa.Call); isCall && hv.At(cv.Block()) == nil {
+									continue // the other activation's call
+								}
+								if isNilConst(lf.Val) {
+									if n, k := hv.KnownNil(r.Block(), mine); k && n {
+										continue
+									}
+									known := false
+									for l := range hv.At(r.Block()) {
+										if y, isNil, ok := nilTest(l); ok && isNil {
+											all := true
+											for _, l2 := range w.leaves(y, r, false) {
+												if cv, isCall := l2.Val.(*ssa.Call); isCall && hv.At(cv.Block()) == nil {
+													continue
+												}
+												if l2.Val != ssa.Value(mine) {
+													all = false
+												}
+											}
+											if all {
+												known = true
+											}
+										}
+									}
+									if known {
+										continue
+									}
+								}
+								okRet = false
+							}
+						}
+						if okRet {
+							agentCall, innerCall, tailView = sc, mine, hv
+							c.Saw(h)
+						}
+					})
+				}
+			}
+			_ = tailView
 			if agentCall == nil {
 				c.Bad("R2.flip", spec.name+"|underlying call", w.FnPos(fr.entry), "no call of the underlying agent's "+spec.name)
 				return
@@ -1175,6 +1260,22 @@ func runC08(c *Ctx) {
 						for l := range hv.At(st.Block()) {
 							if y, n, ok := nilTest(l); ok && (up(y) == ssa.Value(agentCall) || (innerCall != nil && throughCell(strip(y)) == ssa.Value(innerCall))) {
 								isNil, known = n, true
+							} else if ok && innerCall != nil && !known {
+								// the result joined with the other operation's (one variable for both calls): every value that
+								// can reach the test in this activation is this activation's call
+								all, some := true, false
+								for _, lf := range w.leaves(y, st, false) {
+									if cv, isCall := lf.Val.(*ssa.Call); isCall && hv.At(cv.Block()) == nil {
+										continue
+									}
+									some = true
+									if lf.Val != ssa.Value(innerCall) {
+										all = false
+									}
+								}
+								if all && some {
+									isNil, known = n, true
+								}
 							}
 						}
 						// the call is made before the helper runs
@@ -1200,12 +1301,29 @@ func runC08(c *Ctx) {
 					if cv, isCall := lf.Val.(*ssa.Call); isCall && fr.site != nil && !live(cv.Block()) {
 						continue // the other activation's call
 					}
+					if cv, isCall := lf.Val.(*ssa.Call); isCall && tailView != nil && cv.Parent() == innerCall.Parent() && tailView.At(cv.Block()) == nil {
+						continue // the call the shared tail makes for the other flag value
+					}
 					// equivalent forms: nil under the must-fact result==nil, a non-nil error under result!=nil
 					resNil, known := false, false
 					for l := range lf.Facts {
 						if y, isNil, ok := nilTest(l); ok {
 							if strip(y) == ssa.Value(agentCall) {
 								resNil, known = isNil, true
+							} else if tailView != nil {
+								all, some := true, false
+								for _, l2 := range w.leaves(y, innerCall, false) {
+									if cv, isCall := l2.Val.(*ssa.Call); isCall && tailView.At(cv.Block()) == nil {
+										continue
+									}
+									some = true
+									if l2.Val != ssa.Value(innerCall) {
+										all = false
+									}
+								}
+								if all && some {
+									resNil, known = isNil, true
+								}
 							} else if fr.site != nil {
 								for _, l2 := range w.leaves(y, r, false) {
 									if l2.Val == ssa.Value(agentCall) {
